@@ -628,12 +628,95 @@ def rule_traversal(ctx):
         ctx.floor(R, "statement children", n, 7)
 
 
+def eval_declarations(ctx, R, f):
+    """update_declarations evaluated on one parameter, an assigned local, an unassigned local and a signal: afterwards
+    every version of the parameter and of the assigned local is declared, the unassigned local has version 0, the
+    signal keeps its unversioned name, and the declaration statement of a local lists all its versions."""
+    import passeval
+    from finfun import E, NONE, S, Unsupported
+    from passeval import Iter, O, Sink, V
+
+    try:
+        w = passeval.PassWorld([IR, SI], SI)
+    except Exception:
+        return False
+    w.lenient_opaque = True
+    declared = []
+    recorder = ("O", "declarations", (("add_declaration", ("PY", lambda d_: (declared.append(d_), ("T", ()))[1])),))
+    w.opaque = (("Declarations::new", lambda rest, args: recorder), ("Declarations::default", lambda rest, args: recorder))
+
+    def name(tag):
+        return ("O", tag, (("version", NONE), ("with_version", ("PY", lambda v_, tag=tag: ("O", "%s@%s" % (tag, v_)))), ("without_version", ("O", tag))))
+
+    P, X, Y, Sg = name("p"), name("x"), name("y"), name("s")
+    ranges = {"p": S("Some", ("L", (0, 1, 2))), "x": S("Some", ("L", (0, 1))), "y": NONE, "s": NONE}
+    envv = ("O", "environment", (("get_version_range", ("PY", lambda nm: ranges.get(nm[1], NONE))),))
+    params = ("O", "parameters", (("iter", ("PY", lambda: Iter([P]))), ("file_id", O("file-id")), ("file_location", O("location")), ("len", 1)))
+
+    def decl(nm, vt):
+        names = ("O", "names-of-" + nm[1], (("first", nm), ("len", 1), ("iter", ("PY", lambda nm=nm: Iter([nm])))))
+        return V("Statement", "Declaration", meta=O("meta-of-" + nm[1]), names=names, var_type=vt, dimensions=("L", ()))
+
+    stmts = [decl(X, E("VariableType", "Local")), decl(Y, E("VariableType", "Local")), decl(Sg, S("Signal", O("signal-type"), O("tags")))]
+    block = ("O", "block", (("iter_mut", ("PY", lambda: Iter(stmts))), ("iter", ("PY", lambda: Iter(stmts)))))
+    blocks = ("L", (block,))
+    argv = []
+    for i in f["sig"]["inputs"]:
+        t_ = i["ty"].replace(" ", "")
+        if "BasicBlock" in t_:
+            argv.append(blocks)
+        elif "Parameters" in t_:
+            argv.append(params)
+        elif "Environment" in t_:
+            argv.append(envv)
+        else:
+            return False
+    try:
+        w.call_fn(f, argv)
+    except Unsupported as u:
+        ctx.note("update_declarations is outside the evaluator's subset (%s): shape obligations apply" % u)
+        return False
+    except passeval.Panic as p_:
+        ctx.bad(R, "update_declarations/declares-every-version", "panics: %s" % p_, site(SI, f))
+        return True
+
+    def names_in(d_):
+        out = []
+
+        def rec(x, depth=0):
+            if depth > 6:
+                return
+            if isinstance(x, tuple):
+                if len(x) >= 2 and x[0] == "O" and isinstance(x[1], str) and re.fullmatch(r"[pxys](@\d+)?", x[1]):
+                    out.append(x[1])
+                    return
+                for y in x:
+                    if isinstance(y, (tuple, list)):
+                        rec(y, depth + 1)
+            elif isinstance(x, list):
+                for y in x:
+                    rec(y, depth + 1)
+
+        rec(d_)
+        return out
+
+    got = sorted(n_ for d_ in declared for n_ in names_in(d_)[:1])
+    want = sorted(["p@0", "p@1", "p@2", "x@0", "x@1", "y@0", "s"])
+    ctx.check(R, "update_declarations/declares-every-version", got == want, "declared: %s; expected %s (all versions of the parameter and of the assigned local, version 0 of the unassigned local, the signal unversioned)" % (got, want), site(SI, f))
+    nx = stmts[0][3]["names"]
+    listed = sorted(n_[1] for n_ in (nx.items if isinstance(nx, Sink) else (nx[1] if isinstance(nx, tuple) and nx and nx[0] == "L" else [])) if isinstance(n_, tuple))
+    ctx.check(R, "update_declarations/statement-lists-the-versions", listed == ["x@0", "x@1"], "the declaration statement of x now names %s" % listed, site(SI, f))
+    return True
+
+
 def rule_declarations(ctx):
     R = "C14.6"
     ctx.rule(R, "every version of every parameter and of every declared local gets a declaration; signals and components are copied unversioned")
     f = find_fn(SI, "update_declarations")
     if f is None:
         return ctx.missing(R, "update_declarations")
+    if eval_declarations(ctx, R, f):
+        return
     adds = list(method_calls(f["body"], "add_declaration"))
     ctx.floor(R, "add_declaration sites", len(adds), 3)
     t = render(f["body"]).replace(" ", "")
